@@ -999,6 +999,19 @@ def rt_wrap(req):
         for i in reversed(range(depth)):
             hand = 'functools.partial(hand%d, %s)' % (level_deco[i], hand)
         lines += ['hand = ' + hand]
+    elif placement == 'function_wraps':
+        # an ordinary functools.wraps decorator sits between the levels of the stack
+        lines += ['def plainwrap(fn):', '    @functools.wraps(fn)', '    def pw(*a, **k):', '        return fn(*a, **k)', '    return pw']
+        mixed = []
+        for dline in decos:
+            mixed += [dline, '@plainwrap']
+        lines += mixed + fdef
+        lines += core.def_source(fparams, name='plain', body=ret).rstrip('\n').split('\n')
+        lines += ['target = f']
+        hand = 'plain'
+        for i in reversed(range(depth)):
+            hand = 'functools.partial(hand%d, %s)' % (level_deco[i], hand)
+        lines += ['hand = ' + hand]
     elif placement == 'function':
         lines += decos + fdef
         lines += core.def_source(fparams, name='plain', body=ret).rstrip('\n').split('\n')
